@@ -12,7 +12,7 @@ J gen_ro(const std::string& prop, uint64_t run_seed, const std::string& tier) {
   J plan = J::obj(); J knobs = J::obj();
   knobs.set("be", (uint64_t)BE_ARENA); knobs.set("rm", kn.below(2)); knobs.set("maxreq", (uint64_t)1 << 20);
   knobs.set("readers", kn.range(2, 8)); knobs.set("preempt", 1000); knobs.set("stack", (uint64_t)1 << 20);
-  knobs.set("fpmode", kn.below(4) == 0 ? 1 : 0);   // a quarter of the runs with FTZ/DAZ set in the thread's MXCSR
+  knobs.set("fpmode", gen_fpmode(kn));   // the calling thread's floating-point environment: FTZ/DAZ in a quarter of the runs, a directed rounding mode in a quarter
   plan.set("knobs", knobs);
   J ops = J::arr(); Rng nofault(0, "none");
   unsigned n = (unsigned)g.range(3, 30);
